@@ -2,3 +2,4 @@ import Gpv.Model.Basic
 import Gpv.Model.Accum
 import Gpv.Model.Running
 import Gpv.Props.C05
+import Gpv.Props.C06
